@@ -785,6 +785,11 @@ impl Program {
             stall_signal.push(out_prefix);
             let mut bubble_signal = String::from("bubble_");
             bubble_signal.push(out_prefix);
+            for control_signal in &[&stall_signal, &bubble_signal] {
+                if let Some(other_span) = wire_decl_spans.get(control_signal.as_str()) {
+                    errors.push(Error::RedeclaredWire((*control_signal).clone(), decl.name_span, *other_span));
+                }
+            }
             if !assignments.contains_key(stall_signal.as_str()) {
                 debug!("{:?} is not assigned", stall_signal);
                 defaulted_wires.insert(stall_signal.clone());
@@ -816,6 +821,12 @@ impl Program {
                         }
                     }
                 }
+                for generated_name in &[&in_name, &out_name] {
+                    if let Some(other_span) = wire_decl_spans.get(generated_name.as_str()) {
+                        found_error = true;
+                        errors.push(Error::RedeclaredWire((*generated_name).clone(), register.span, *other_span));
+                    }
+                }
                 if defaults.contains_key(&out_name) {
                     found_error = true;
                     errors.push(Error::DuplicateRegister {
@@ -840,6 +851,16 @@ impl Program {
                     })
                 } else {
                     seen_registers.insert(out_name.clone(), register.span.clone());
+                }
+                if seen_registers.contains_key(&in_name) {
+                    found_error = true;
+                    errors.push(Error::DoubleDeclaredRegisterOutWire {
+                        name: String::from(in_name.clone()),
+                        old_span: seen_registers.get(&in_name).unwrap().clone(),
+                        new_span: register.span.clone(),
+                    })
+                } else {
+                    seen_registers.insert(in_name.clone(), register.span.clone());
                 }
 
                 if found_error {
